@@ -411,8 +411,8 @@ func vcPropUniverses(prop *vcProp) []string {
 	return []string{"pol", "set", "route"}
 }
 
-// vcPlan lists the explorations of this run. Quick: graph mode depth 3 from the empty, full, alt and flap
-// base states of every universe (+ depth 4 from empty for the property's QuickDeep universes).
+// vcPlan lists the explorations of this run. Quick: graph mode depth 3 from the empty, full, flap and dangling
+// base states (alt in the thorough tier) of every universe (+ depth 4 from empty for the property's QuickDeep universes).
 // Thorough: additionally the unsynced base, tree mode (no merging) depth 3 from empty, graph mode
 // depth 4 from every base and depth 5 from the empty and full bases (deadline permitting).
 func vcPlan(c *vk.Ctx, prop *vcProp) []vcPlanItem {
@@ -426,8 +426,15 @@ func vcPlan(c *vk.Ctx, prop *vcProp) []vcPlanItem {
 		plan = append(plan, vcPlanItem{U: us[un], Base: base, Pre: pre, Depth: depth, Tree: tree})
 	}
 	for _, un := range vcPropUniverses(prop) {
-		for _, base := range []string{"empty", "full", "alt", "flap", "dangling"} {
+		bases := []string{"empty", "full", "flap", "dangling"}
+		if qb, ok := prop.QuickBases[un]; ok && c.Quick() {
+			bases = qb
+		}
+		for _, base := range bases {
 			add(un, base, 3, false)
+		}
+		if c.Thorough() {
+			add(un, "alt", 3, false)
 		}
 	}
 	if c.Quick() {
